@@ -93,12 +93,61 @@ def run(prop=None, ids=None, workers=8, repo="/repo"):
                 skipped=[r["id"] for r in res if r["status"] == "skipped"], errors=errors, results=res)
 
 
+def run_equivalent(workers=8, repo="/repo", ids=None):
+    """negative controls: every property's check must be silent on each behaviour-preserving edit"""
+    sys.path.insert(0, os.path.join(VERIF, "mutants"))
+    import equivalent
+    importlib.reload(equivalent)
+    res = []
+
+    def one(m, slot):
+        tmp = tempfile.mkdtemp(prefix="nneq-")
+        try:
+            dst = os.path.join(tmp, "repo")
+            make_copy(repo, dst)
+            p = os.path.join(dst, m["file"])
+            src = open(p).read()
+            n = m.get("nth", 0)
+            parts = src.split(m["old"])
+            if n >= len(parts) - 1:
+                return dict(id=m["id"], status="skipped")
+            open(p, "w").write(m["old"].join(parts[: n + 1]) + m["new"] + m["old"].join(parts[n + 1:]))
+            try:
+                fx = F.get_facts(dst, "dev", quiet=True, slot=slot)
+            except F.NoVerdict as e:
+                return dict(id=m["id"], status="nocompile", why=str(e)[-400:])
+            known = {k["key"] for k in core.load_known().get("known", [])}
+            alarms = []
+            for prop in rules.PROPS:
+                mod = rules.load(prop)
+                ctx = core.Ctx(prop, fx)
+                mod.run(ctx)
+                ctx.finish_floors()
+                alarms += [o["key"] for o in ctx.obligations if o["status"] != "ok" and o["key"] not in known]
+            return dict(id=m["id"], status="silent" if not alarms else "FALSE-ALARM", keys=alarms[:5])
+        finally:
+            shutil.rmtree(tmp, ignore_errors=True)
+    todo = [m for m in equivalent.EQUIV if ids is None or m["id"] in ids]
+    with cf.ThreadPoolExecutor(max_workers=workers) as ex:
+        futs = [ex.submit(one, m, "-mut%d" % (i % workers)) for i, m in enumerate(todo)]
+        for f in futs:
+            res.append(f.result())
+    return res
+
+
 if __name__ == "__main__":
     import argparse
     ap = argparse.ArgumentParser()
     ap.add_argument("--prop")
     ap.add_argument("--ids", nargs="*")
+    ap.add_argument("--equivalent", action="store_true")
     a = ap.parse_args()
+    if a.equivalent:
+        bad = 0
+        for r in run_equivalent(workers=12, ids=a.ids):
+            print(r["id"], r["status"], r.get("keys", ""), r.get("why", "")[-200:])
+            bad += r["status"] != "silent"
+        sys.exit(1 if bad else 0)
     r = run(a.prop, a.ids, workers=12)
     for x in r["results"]:
         print(x["id"], x["status"], x.get("why", ""), (x.get("keys") or [])[:3] if x["status"] != "caught" else "")
